@@ -48,6 +48,7 @@ type batOpts struct {
 	probeP        float64
 	capChangeP    float64
 	maxcapChangeP float64 // MaxCapacity() of the limiter changes on the way
+	mixOverrideP  float64 // a Watcher with a longer MaxOperationTime next to one without
 	rejectP       float64 // malformed enqueues: nil op, no watcher, too expensive
 	holdP         float64 // park an enqueuer at the hook
 	costShiftP    float64 // operation whose cost differs at completion
@@ -132,6 +133,12 @@ func genRandomBat(rng *rand.Rand, name string, o batOpts) *Scenario {
 			wc.MaxOp = effMaxOp*2 + 11
 		}
 		sc.Watchers = append(sc.Watchers, wc)
+	}
+	if o.mixOverrideP > 0 && nw >= 2 && chance(rng, o.mixOverrideP) {
+		// one Watcher that allows its batches longer than the Batcher does next to one without a time of its own: the
+		// second one's batches must still be written off after the Batcher's time
+		sc.Watchers[0].MaxOp = effMaxOp*2 + 11
+		sc.Watchers[1].MaxOp = 0
 	}
 	timeoutOf := func(w int64) int64 {
 		if sc.Watchers[w].MaxOp > 0 {
@@ -445,7 +452,7 @@ func genFamily(rng *rand.Rand, family string, idx int, o batOpts) *Scenario {
 		o.limiterP = 1
 		o.caps = []int64{1, 2, 3, 9, 11, 50}
 		o.costs = []int64{0, 1, 1, 2, 5}
-		o.flushes = []int64{0, 100 * MS, 20 * MS, 1 * MS, 250 * MS, 1 * SEC}
+		o.flushes = []int64{0, 100 * MS, 20 * MS, 1 * MS, 250 * MS, 1 * SEC, 1500 * MS, 3 * SEC}
 		o.nOps = []int{5, 20, 40}
 		o.bufcaps = []int{50, 200}
 		o.horizonMin = 8 * SEC
@@ -483,7 +490,8 @@ func genFamily(rng *rand.Rand, family string, idx int, o batOpts) *Scenario {
 	case "timeouts": // MaxOperationTime: all sign combinations, callbacks around the limit, probes
 		o.maxops = []int64{0, -3 * MS, 40 * MS, 300 * MS, 2 * SEC}
 		o.wMaxOps = []int64{0, -1, 1, 2}
-		o.durs = []int64{-1, -1, -1, -2, 0, 30*MS + 7}
+		o.mixOverrideP = 0.4
+		o.durs = []int64{-1, -1, -1, -2, -2, 0, 30*MS + 7}
 		o.probeP = 0.5
 		o.audits = []int64{0}
 		o.nOps = []int{1, 3, 6}
